@@ -9,9 +9,12 @@ BUILT={
  "C03":("source text (random layout, aliases, implicit multiplication, where-constants) -> RoocSolver + auto_solver in sacrificial workers, judged by the harness's exact interpreter of the generator's AST over the exhaustively enumerated domains","4/C03"),
  "C04":("certificate re-check of every returned solution against the model it came from, all five solver entry points, in sacrificial workers","4/C04"),
  "C05":("every solver verdict vs certified exact rational LP/MILP oracle (dual / Farkas / ray certificates), CPU-budget watchdog for 'never returns'","4/C05"),
+ "C06":("data-driven program vs the harness's own hand-unrolled twin text, both through the real parser/transformer/linearizer, ordered row-by-row comparison; empty numeric aggregations must be rejected","4/C06"),
  "C07":("published ranges and hook-exposed derived ranges (full and truncated propagation) vs exact evaluation at source-feasible assignments and box points; certified true extremes for affine models","4/C07"),
  "C08":("structural well-formedness monitor on every compiled linear model (regular and hostile sources) + justification check of MissingFiniteBounds errors through hook H1","4/C08"),
+ "C09":("compiled expression tree vs the harness's own precedence-climbing parser, exact evaluation at all assignments over {0..3}; exhaustive for flat sequences of up to 4 leaves at every run, random beyond","4/C09"),
  "C10":("exact evaluator before/after simplify, flatten and flatten+simplify (exhaustive for trees with <= 2 operators at every run, random beyond) + spelling twins compiled and compared by meaning with the certified aux MILP","4/C10"),
+ "C11":("format(T) parses, formats to itself, type-checks/transforms like T and compiles to a model of equal meaning (exact evaluator on every expression pair, row comparison of linear models); exhaustive (parent, child, side) sweep at every run","4/C11"),
  "C12":("Model::to_string and LinearModel::to_string fed back through type check, transform and linearizer; row-multiset comparison after harmless normalisations, semantic comparison with the certified aux MILP, text fixed-point test","4/C12"),
  "C13":("exact point mapping both ways between model and standard form (vertices and rays under random objectives) + certified optimum/status equality, via guarded accessors","4/C13"),
  "C14":("invariant checker over the recorded pivot history of the real pivot loop (hook H3), every prefix; terminal event vs certified exact oracle","4/C14"),
